@@ -311,6 +311,26 @@ func runC09(w *World, pi interface{}) {
 				choice = m
 			}
 		}
+		if offer == nil {
+			// no offer at all is only right when there is nothing to choose and nothing to switch
+			cur := "none"
+			if kind == "wss" {
+				cur = "tls"
+			}
+			need := func(enc []string) bool {
+				return len(wantComp) > 1 || len(enc) > 1 || (len(enc) == 1 && enc[0] != cur)
+			}
+			went := ""
+			for _, m := range sframes {
+				if st := fstr(m, "state"); st == "authenticating" || st == "established" {
+					went = st
+					break
+				}
+			}
+			if went != "" && need(wantEnc) && need(wantEncAlt) {
+				w.Violate("C09.negotiation-skipped", sig("offer"), "client %d on %s got %q without any negotiation offer; configured %v / %v, supported by the connection %v -> an offer of %v / %v was due", i, kind, went, p.Conf.Comp, p.Conf.Enc, sup, wantComp, wantEnc)
+			}
+		}
 		if offer != nil {
 			co, eo := fstrs(offer, "compressionOptions"), fstrs(offer, "encryptionOptions")
 			if !setEq(co, wantComp) || !(setEq(eo, wantEnc) || setEq(eo, wantEncAlt)) {
